@@ -197,7 +197,11 @@ package netpoll
 //@   ensures old(n > 0 && b.length >= n) ==> p#arr == b.cachePeek#arr || (p#arr == b.read.buf#arr && p#base == b.read.buf#base + b.read.off && b.read.mode & 2 != 0)
 //@   ensures forall m *linkBufferNode :: !inb(b, m) ==> m.mode == old(m.mode)
 //@   ensures forall a int :: a > 0 && wasalloc(a) && a != old(b.cachePeek#arr) ==> pool[a] == old(pool[a]) && blknode[a] == old(blknode[a]) && cacheown[a] == old(cacheown[a]) && cacheidx[a] == old(cacheidx[a]) && cachesof[a] == old(cachesof[a]) && peekown[a] == old(peekown[a])
-//@   modifies b.read, b.cachePeek, b.peekpos, linkBufferNode.mode, mem, pool, blknode, cacheown, cacheidx, cachesof, peekown
+//@   note C02: Peek returns nothing to the pool - every non-nil cachePeek was handed out by the Peek that created it and stays valid until Release; a cache
+//@     block that is too small is parked in caches (recycled by Release) instead of being freed
+//@   forbid free
+//@   modifies b.read, b.cachePeek, b.caches, b.peekpos, linkBufferNode.mode, mem, mem:[]byte, pool, blknode, cacheown, cacheidx, cachesof, peekown
+//@   ghost after store caches#1: peekown[b.cachePeek#arr] = nil; cacheown[b.cachePeek#arr] = b; cacheidx[b.cachePeek#arr] = len(b.caches) - 1; cachesof[b.caches#arr] = b
 //@   ghost after store cachePeek#2: peekown[b.cachePeek#arr] = b
 //@   ghost after store cachePeek#3: b.peekpos = b.read.sp + b.read.off
 //@   loop 1 invariant len(p) <= n && (scanned <= len(p) || len(p) == n) && 0 <= scanned && p#arr != 0 && len(p) <= cap(p) && n <= cap(p)
